@@ -246,3 +246,15 @@ Theorem check_list_race_sound lists missing : check_list_race lists missing = 0%
 Proof.
   unfold check_list_race, code. destruct (missing =? 0)%Z eqn:M; [intros _; apply Z.eqb_eq; exact M | cbn; discriminate].
 Qed.
+
+(** Store with a context that ends during it: an accepted case has, per trial, nil with the complete
+    new value or an error with the old value / absence - never a prefix under a nil error *)
+Theorem check_ctx_store_sound ts : check_ctx_store ts = 0%Z ->
+  forall r l, In (r, l) ts -> (r = 0%Z /\ l = 1%Z) \/ (r <> 0%Z /\ l = 0%Z).
+Proof.
+  unfold check_ctx_store, code. destruct (forallb ctx_trial_ok ts) eqn:E; [|cbn; discriminate].
+  intros _ r l Hin. rewrite forallb_forall in E. specialize (E _ Hin). cbn in E.
+  apply orb_true_iff in E. destruct E as [E|E]; apply andb_true_iff in E; destruct E as [A B].
+  - left. split; apply Z.eqb_eq; assumption.
+  - right. apply negb_true_iff, Z.eqb_neq in A. apply Z.eqb_eq in B. auto.
+Qed.
